@@ -71,3 +71,19 @@ pub open spec fn wait_outcome(thread_result: Result<()>, conn: bool, flag_after:
         Err(e) => Err(e),
     }
 }
+
+// ---- ShutdownHandle::shutdown (third session): the two effects on the shared connection state, in order
+#[derive(PartialEq, Eq, Clone, Copy)]
+pub enum ShutdownHow { Read, Write, Both }
+pub enum ShutEv { Flag(bool), Sock(ShutdownHow) }
+pub struct ConnStateLog { pub evs: Ghost<Seq<ShutEv>> }
+impl ConnStateLog {
+    // assumed: A-ATOMIC AtomicBool::store publishes the value (R8: `&self` -> `&mut self` for the ghost log; the memory ordering is not pinned:
+    // wait() reads the flag after joining the daemon thread, and the join synchronises)
+    #[verifier::external_body]
+    pub fn store_flag(&mut self, v: bool) ensures final(self).evs@ == old(self).evs@.push(ShutEv::Flag(v)) { unimplemented!() }
+    // assumed: A-OS UnixStream::shutdown(how) shuts the given directions of the connection down (may fail, e.g. already closed)
+    #[verifier::external_body]
+    pub fn conn_shutdown(&mut self, how: ShutdownHow) -> (r: core::result::Result<(), AnyBox>) ensures final(self).evs@ == old(self).evs@.push(ShutEv::Sock(how)) { unimplemented!() }
+}
+pub struct ShutdownHandle { pub state: ConnStateLog }
